@@ -231,6 +231,20 @@ func l5(w *World, r *Report) {
 							for _, e := range y.Edges {
 								visit(e, d+1)
 							}
+						case *ssa.Parameter:
+							// the comparison sits in a helper (`isNotFound(xerr)`): what its callers pass
+							if pf := y.Parent(); pf != nil {
+								for pi, p := range pf.Params {
+									if p != y {
+										continue
+									}
+									for _, cs := range w.nodeCallers(pf) {
+										if cs.Site != nil && !cs.Site.Common().IsInvoke() && pi < len(cs.Site.Common().Args) {
+											visit(cs.Site.Common().Args[pi], d+1)
+										}
+									}
+								}
+							}
 						case *ssa.Call:
 							call = y
 						case *ssa.Extract:
@@ -730,7 +744,12 @@ func l2(w *World, r *Report) {
 		okSave := complete
 		if os.Getenv("RIGOCHECK_DEBUG") == "l2" {
 			for _, p := range paths {
-				fmt.Fprintln(os.Stderr, "L2 path", p.Term, p.Events, func() string { if p.Ret != nil { return w.InstrPos(p.Ret) }; return "-" }())
+				fmt.Fprintln(os.Stderr, "L2 path", p.Term, p.Events, func() string {
+					if p.Ret != nil {
+						return w.InstrPos(p.Ret)
+					}
+					return "-"
+				}())
 			}
 		}
 		nOK := 0
